@@ -127,6 +127,15 @@ func (e *Eval) Prepare(flags ...[]byte) error {
 	}
 
 	//
+	// Prepare might be called more than once, so we start with a clean
+	// slate - otherwise the program we are about to compile would be
+	// appended to the one which the previous call produced.
+	//
+	e.constants = nil
+	e.instructions = nil
+	e.functions = make(map[string]environment.UserFunction)
+
+	//
 	// Compile the program to bytecode
 	//
 	err = e.compile(program)
